@@ -165,7 +165,14 @@ where
     #[cfg(feature = "std")]
     fn chunks_vectored<'a>(&'a self, dst: &mut [IoSlice<'a>]) -> usize {
         let mut n = self.a.chunks_vectored(dst);
-        n += self.b.chunks_vectored(&mut dst[n..]);
+        // `a` may describe only a prefix of its bytes (the default
+        // `chunks_vectored` returns a single chunk). Slices of `b` may only
+        // follow once all of `a` is covered, otherwise the result would skip
+        // the rest of `a`.
+        let a_len: usize = dst[..n].iter().map(|s| s.len()).sum();
+        if a_len == self.a.remaining() {
+            n += self.b.chunks_vectored(&mut dst[n..]);
+        }
         n
     }
 
